@@ -123,7 +123,15 @@ def better_repr(v) -> str:
         if len(v) == 1:
             return "[%s,]" % better_repr(v[0])
         return "[%s]" % ", ".join(better_repr(i) for i in v)
-    # TODO: elif deal with sets and dicts
+    elif isinstance(v, (set, frozenset)):
+        # Iteration order of a set depends on the running interpreter's
+        # hashing; show the elements in a fixed order.
+        items = sorted(better_repr(i) for i in v)
+        if not items:
+            return "%s()" % type(v).__name__
+        text = "{%s}" % ", ".join(items)
+        return text if isinstance(v, set) else "frozenset(%s)" % text
+    # TODO: elif deal with dicts
     elif isinstance(v, types.CodeType):
         # Show a native code object the way the portable one for this
         # version is shown, so listings do not depend on whether the
